@@ -9,6 +9,7 @@ package main
 import (
 	"bytes"
 	"encoding/json"
+	"os"
 	"fmt"
 	"sort"
 	"strings"
@@ -238,7 +239,7 @@ func main() {
 				}
 				sort.Strings(fl)
 				r.Seen("distinct", fmt.Sprintf("%s -> %s", name, strings.Join(fl, " ")))
-				if replay != nil {
+				if replay != nil || (os.Getenv("C14_DEBUG") != "" && len(viewAfter.Diff(viewRef, 1000)) > 0) {
 					fmt.Printf("REPLAY %s: B height %d txs %d, tip %d\n", name, B.Height, len(B.Txs), viewAfter["x"] == "")
 					for _, d := range lidx.DiffDump(refDump, after) {
 						fmt.Println("  raw:", d.String())
@@ -246,9 +247,7 @@ func main() {
 					for _, d := range viewAfter.Diff(viewRef, 1000) {
 						fmt.Println("  query:", d)
 					}
-					for _, d := range lidx.DiffDump(before, withB) {
-						fmt.Println("  B changed:", d.Kind, fmt.Sprintf("%q", d.Key))
-					}
+					fmt.Println("  heights", n.Chain.GetBlockHeight(), ref.Chain.GetBlockHeight(), n.ID, ref.ID)
 				}
 				// oracle 1: public queries
 				qd := viewAfter.Diff(viewRef, 8)
